@@ -14,8 +14,10 @@ import (
 //
 // The wire INPUT is the script (durations in microseconds):
 //
-//	Delay     0 wait stop slack margin                 (stop < 0: the timer is never stopped)
-//	Debounce  1 wait slack margin (op arg)*            op 0 Call, 1 Cancel, 2 Sleep arg
+//	Delay     0 wait stop slack margin [cb]            (stop < 0: the timer is never stopped; cb: the callback
+//	                                                   keeps running for cb after it has recorded its start)
+//	Debounce  1 wait slack margin (op arg)*            op 0 Call, 1 Cancel, 2 Sleep arg, 3 Call with a slow
+//	                                                   callback (it keeps running for arg after its start)
 //	Throttle  2 d trailing slack margin (op arg)*      op 0 Call, 1 Next (own goroutine; the main goroutine
 //	                                                   waits up to arg for it), 2 Cancel, 3 Sleep arg
 //
@@ -66,11 +68,15 @@ func execC20(in []int64) (out []int64) {
 	if try(func() {
 		switch in[0] {
 		case 0:
-			if len(in) != 5 {
+			if len(in) != 5 && len(in) != 6 {
 				out = bad
 				return
 			}
-			out = c20Delay(in[1], in[2], in[4])
+			var cb int64
+			if len(in) == 6 {
+				cb = in[5]
+			}
+			out = c20Delay(in[1], in[2], in[4], cb)
 		case 1:
 			if len(in) < 4 {
 				out = bad
@@ -92,7 +98,7 @@ func execC20(in []int64) (out []int64) {
 	return out
 }
 
-func c20Delay(waitUs, stopUs, marginUs int64) []int64 {
+func c20Delay(waitUs, stopUs, marginUs, cbUs int64) []int64 {
 	clk := c20Clock{time.Now()}
 	var n, tr int64 = 0, -1
 	b := clk.now()
@@ -100,6 +106,9 @@ func c20Delay(waitUs, stopUs, marginUs int64) []int64 {
 		t := clk.now()
 		if atomic.AddInt64(&n, 1) == 1 {
 			atomic.StoreInt64(&tr, t)
+		}
+		if cbUs > 0 { // a slow callback: still running when the Stop / the inspection comes
+			time.Sleep(usDur(cbUs))
 		}
 	})
 	a := clk.now()
@@ -133,13 +142,20 @@ func c20Debounce(waitUs, marginUs int64, ops [][2]int64) []int64 {
 	var lastA int64
 	for _, op := range ops {
 		switch op[0] {
-		case 0:
+		case 0, 3:
 			r := &drec{tr: -1}
+			var slow time.Duration
+			if op[0] == 3 {
+				slow = usDur(op[1])
+			}
 			r.b = clk.now()
 			debounce(func() {
 				t := clk.now()
 				if atomic.AddInt64(&r.n, 1) == 1 {
 					atomic.StoreInt64(&r.tr, t)
+				}
+				if slow > 0 { // a slow callback: later calls / cancels arrive while it is still running
+					time.Sleep(slow)
 				}
 			})
 			r.a = clk.now()
@@ -285,10 +301,13 @@ func describeC20(in []int64) string {
 	var sb strings.Builder
 	switch in[0] {
 	case 0:
-		if len(in) != 5 {
+		if len(in) != 5 && len(in) != 6 {
 			return "?"
 		}
 		fmt.Fprintf(&sb, "Delay(%s)", ms(in[1]))
+		if len(in) == 6 {
+			fmt.Fprintf(&sb, " [callback runs for %s]", ms(in[5]))
+		}
 		if in[2] >= 0 {
 			fmt.Fprintf(&sb, "; Sleep %s; timer.Stop()", ms(in[2]))
 		}
@@ -303,6 +322,8 @@ func describeC20(in []int64) string {
 				sb.WriteString(" Call")
 			case 1:
 				sb.WriteString(" Cancel")
+			case 3:
+				fmt.Fprintf(&sb, " Call[callback runs for %s]", ms(op[1]))
 			default:
 				fmt.Fprintf(&sb, " Sleep(%s)", ms(op[1]))
 			}
@@ -413,11 +434,20 @@ func c20Account(g *Gen, c *c20Case) bool {
 		cancelAfterCall := false
 		i := 0
 		var prevB int64 = -1
+		var slowUntil int64 = -1
 		for _, o := range ops {
 			switch o[0] {
-			case 0:
+			case 0, 3:
 				calls++
 				g.Count("op:deb.Call")
+				if o[0] == 3 {
+					g.Count("op:deb.Call-with-slow-callback")
+					if i+3 < len(obs) && obs[i+2] > 0 {
+						slowUntil = obs[i+3] + o[1]*1000
+					}
+				} else if i+3 < len(obs) && obs[i] < slowUntil {
+					g.Count("deb:call-while-a-callback-is-running")
+				}
 				if i+3 < len(obs) {
 					if obs[i+2] > 0 {
 						runs++
@@ -467,6 +497,8 @@ func c20Account(g *Gen, c *c20Case) bool {
 		grants, falses, nexts, calls := 0, 0, 0, 0
 		var lastGrant int64 = -1
 		grantThenMore := false
+		var pendingSince int64 = -1 // first trigger since the last permission
+		lateHandout := false        // the last permission was picked up more than a period after that trigger
 		for _, o := range ops {
 			switch o[0] {
 			case 0:
@@ -475,12 +507,18 @@ func c20Account(g *Gen, c *c20Case) bool {
 				if grants > 0 {
 					grantThenMore = true
 				}
+				if i+1 < len(obs) && pendingSince < 0 {
+					pendingSince = obs[i]
+				}
 				if i+1 < len(obs) && lastGrant >= 0 {
 					delta := obs[i] - lastGrant
 					if x := delta - in[1]*1000; x > -3000000 && x < 3000000 {
 						g.Count("discarded:call-within-3ms-of-period-end")
 					} else if x < 0 {
 						g.Count("thr:call-inside-period")
+						if lateHandout {
+							g.Count("thr:call-inside-period-of-a-late-handout")
+						}
 					} else {
 						g.Count("thr:call-outside-period")
 					}
@@ -503,6 +541,11 @@ func c20Account(g *Gen, c *c20Case) bool {
 						if obs[i+1]-obs[i] > 1000000 {
 							g.Count("thr:grant-after-blocking>1ms")
 						}
+						lateHandout = pendingSince >= 0 && obs[i]-pendingSince > in[1]*1000
+						if lateHandout {
+							g.Count("thr:slow-consumer(permission-picked-up>period-after-trigger)")
+						}
+						pendingSince = -1
 					case 0:
 						falses++
 					default:
@@ -680,6 +723,62 @@ func genC20(g *Gen) {
 			}
 		}
 	}
+	// ---- slow-consumer probes: the consumer is SLOWER than the interval — a permission sits unconsumed for
+	// p (half a period .. three periods) before Next picks it up, and the next trigger arrives g after that
+	// Next: the period counts from the instant Next handed the permission out, not from the instant the
+	// trigger (or the trailing-edge timer) made it available.  Every wait, trailing on and off.
+	for _, d := range []int64{5000, 10000, 20000, 50000} {
+		for _, trailing := range []bool{false, true} {
+			J := [2]int64{1, d / 4} // Next, the main goroutine waits up to d/4 for it
+			C := [2]int64{0, 0}
+			S := func(us int64) [2]int64 { return [2]int64{3, us} }
+			for _, g2 := range []int64{0, d / 4, d * 5 / 8} {
+				for _, p := range []int64{d / 2, d * 3 / 2, d * 3} {
+					// (A) Call; pause p; Next; [pause g]; Call; Next
+					add("exhaustive", c20ThrIn(d, trailing, [][2]int64{C, S(p), J, S(g2), C, J}))
+					// (B) several triggers during the pause; the second Next is already blocked when the
+					//     trigger after the hand-out arrives
+					add("exhaustive", c20ThrIn(d, trailing, [][2]int64{C, S(p / 2), C, S(p / 2), J, {1, 0}, S(g2), C, S(d * 3 / 2)}))
+				}
+				// (C) the permission raised by the TRAILING-EDGE timer is picked up late: permission, trigger at
+				//     d/4 (timer armed for the trailing edge), pause q past the edge, Next, [pause g], Call, Next
+				for _, q := range []int64{d * 5 / 4, d * 2, d * 3} {
+					add("exhaustive", c20ThrIn(d, trailing, [][2]int64{C, J, S(d / 4), C, S(q), J, S(g2), C, J}))
+				}
+			}
+			// (D) a consumer that is steadily slower than the interval: three rounds of trigger / pause / Next
+			for _, p := range []int64{d / 2, d * 3 / 2, d * 5 / 2} {
+				add("exhaustive", c20ThrIn(d, trailing, [][2]int64{C, S(p), J, C, S(p), J, C, S(p), J}))
+			}
+			// (E) a prompt permission, then a late trigger that is consumed at once (the period restarts
+			//     at THAT hand-out), then a trigger g later and a Next
+			for _, p := range []int64{d * 5 / 4, d * 3 / 2, d * 7 / 4} {
+				for _, g2 := range []int64{d / 8, d / 2, d * 3 / 4} {
+					add("exhaustive", c20ThrIn(d, trailing, [][2]int64{C, J, S(p), C, J, S(g2), C, J}))
+				}
+			}
+		}
+	}
+	// ---- slow callbacks (debounce, Delay): the callback is still running when the next call / cancel /
+	// Stop arrives.  A call made meanwhile is an ordinary call: it runs, once, no sooner than the wait later.
+	for _, w := range []int64{5000, 10000, 20000, 50000} {
+		for _, c := range []int64{w * 3 / 2, w * 3} {
+			SC := [2]int64{3, c}
+			C := [2]int64{0, 0}
+			S := func(us int64) [2]int64 { return [2]int64{2, us} }
+			during := w + w/4 // the first callback started at about w and runs until w + c
+			add("exhaustive", c20DebIn(w, [][2]int64{SC, S(during), C}))
+			add("exhaustive", c20DebIn(w, [][2]int64{SC, S(during), C, C, S(w / 3), C}))
+			add("exhaustive", c20DebIn(w, [][2]int64{SC, S(during), C, {1, 0}}))
+			add("exhaustive", c20DebIn(w, [][2]int64{SC, S(during), {1, 0}, C}))
+			add("exhaustive", c20DebIn(w, [][2]int64{SC, S(during), SC, S(during), SC}))
+			add("exhaustive", c20DebIn(w, [][2]int64{SC, S(during), SC, S(w / 3), C, S(w * 8 / 5), C}))
+			add("exhaustive", c20DebIn(w, [][2]int64{SC, S(w / 3), SC, S(during), C}))
+			for _, s := range []int64{-1, w / 2, w + w/4, w + c + w/4} { // no Stop, before the firing, during the callback, after it
+				add("exhaustive", append(c20DelayIn(w, s), c))
+			}
+		}
+	}
 	g.Exhaustive("exhaustive")
 
 	// ---- seeded random: longer scripts, every wait, arbitrary sleeps up to 2.2 periods
@@ -705,9 +804,28 @@ func genC20(g *Gen) {
 					for b := 0; b < burst; b++ {
 						ops = append(ops, [2]int64{0, 0})
 					}
+					if g.Rng.Intn(4) == 0 { // the burst ends with a call whose callback runs for up to 3 waits
+						ops[len(ops)-1] = [2]int64{3, g.Rng.Int63n(3*w + 1)}
+					}
 				}
 			}
 			add("random", c20DebIn(w, ops))
+		case 1: // throttle with a slow consumer: rounds of triggers, a pause of up to 3 periods, a Next, a short pause
+			var ops [][2]int64
+			rounds := 2 + g.Rng.Intn(g.Pick(2, 3))
+			for j := 0; j < rounds; j++ {
+				for c := 1 + g.Rng.Intn(2); c > 0; c-- {
+					ops = append(ops, [2]int64{0, 0})
+				}
+				if g.Rng.Intn(4) != 0 {
+					ops = append(ops, [2]int64{3, g.Rng.Int63n(3*w + 1)})
+				}
+				ops = append(ops, [2]int64{1, []int64{0, w / 4, w / 4, w * 2}[g.Rng.Intn(4)]})
+				if g.Rng.Intn(2) == 0 {
+					ops = append(ops, [2]int64{3, g.Rng.Int63n(w + 1)})
+				}
+			}
+			add("random", c20ThrIn(w, g.Rng.Intn(2) == 0, ops))
 		default: // throttle
 			var ops [][2]int64
 			for j := 0; j < n; j++ {
@@ -759,7 +877,12 @@ func init() {
 			"sleep 1.5d} up to length 4 at d = 20 ms and 3 at 5 ms (thorough 6/5/4/4 at 20/5/10/50 ms), trailing on and off; period probes (a permission, " +
 			"then 1-2 triggers at 3/8, 5/8, 7/8, 9/8 of the period, with 1-2 Nexts after them or already blocked) for every wait; stale-start probes " +
 			"(1-2 Nexts blocked for 1.5, 2, 3 periods before the first trigger, then a second trigger d/8, d/4, d/2 later and a further Next; Cancel with " +
-			"1-3 Nexts blocked, with and without a trigger before it) for every wait; then seeded random " +
+			"1-3 Nexts blocked, with and without a trigger before it) for every wait; slow-consumer probes for every wait, trailing on and off " +
+			"(a permission left unconsumed for d/2, 1.5d, 3d — one or several triggers during the pause — then Next, a trigger 0, d/4, 5d/8 later and a " +
+			"further Next, after it or already blocked; the same with the permission raised by the trailing-edge timer and picked up 1.25d, 2d, 3d later; " +
+			"three rounds of a steadily slow consumer; a late trigger consumed at once followed by a trigger d/8, d/2, 3d/4 later); slow callbacks " +
+			"(debounce calls, bursts and cancels arriving while a callback that runs for 1.5 or 3 waits is still running; Delay with such a callback and " +
+			"Stop before / during / after it) for every wait; then seeded random " +
 			"scripts with arbitrary sleeps. Non-trivial: Delay with a Stop; debounce with >= 2 calls or a cancel after a call; throttle with a " +
 			"permission followed by a further Call or Next. Counters named discarded:* count comparisons whose deciding inequality " +
 			"has < 3 ms of slack (the acceptor then allows both outcomes).",
